@@ -31,6 +31,7 @@ var (
 	flagWork   = flag.String("workdir", "", "scratch directory for generated modules")
 	flagScn    = flag.Int("scn", 40, "scenarios per directive")
 	flagKeep   = flag.Bool("keepcase", false, "keep the generated module of failing cases")
+	flagHammer = flag.Int("hammer", 0, "C05/C06: executions per selected early-stop scenario in the inner driver's stress phase")
 )
 
 func goEnv() []string {
@@ -475,6 +476,9 @@ func runCase(p *PackageSpec, prop string, scn int, race bool, tag string, replay
 		"-specs=" + filepath.Join(mod, "specs.json"), "-out=" + outDir, fmt.Sprintf("-scn=%d", scn), "-tag=" + tag,
 		"-rapid.nofailfile", fmt.Sprintf("-rapid.checks=%d", scn), "-rapid.shrinktime=15s",
 		fmt.Sprintf("-rapid.seed=%d", rapidSeedFor(p, tag))}
+	if *flagHammer > 0 {
+		rargs = append(rargs, fmt.Sprintf("-hammer=%d", *flagHammer))
+	}
 	if replayInner != "" {
 		rargs = append(rargs, "-replay="+replayInner)
 	}
